@@ -242,7 +242,7 @@ class Contract:
     def __init__(self, func, params, requires=(), ensures=None, exc_ensures=None,
                  raises=None, raises_any=False, invariants=None, uses=(), returns=None,
                  effects=None, concretize=None, native=None, pre_hook=None, post_hook=None,
-                 notes='', propagate_opaque=True, max_paths=None, exit_hook=None, variant=None, cuts=None, call_hook=None, lazy_len=False, model_not_callable=False):
+                 notes='', propagate_opaque=True, max_paths=None, exit_hook=None, variant=None, cuts=None, call_hook=None, lazy_len=False, model_not_callable=False, numeric_split=False):
         self.func = func
         self.params = params
         self.requires = list(requires)
@@ -267,6 +267,7 @@ class Contract:
         self.cuts = list(cuts or [])
         self.lazy_len = lazy_len
         self.model_not_callable = model_not_callable
+        self.numeric_split = numeric_split
         self.call_hook = call_hook    # callable(E, env_locals) -> value | None (None: use the generic rule)
         self._cut_nodes = {}
         self.key = func if not variant else '%s#%s' % (func, variant)
